@@ -141,7 +141,7 @@ func genOps(rt *rapid.T, maxOps int, allowBig bool) []c24Op {
 		o := c24Op{Kind: "ids", Blocking: rapid.Bool().Draw(rt, "blocking"), N: genN(rt)}
 		if validN(o.N) {
 			o.K = genK(rt, o.N, o.Blocking, allowBig && bigs < 2 && o.Blocking)
-			if o.K < 0 && !o.Blocking && rapid.IntRange(0, 2).Draw(rt, "keep_nonblocking_stop") != 0 {
+			if (o.K == -2 || (o.K < 0 && !o.Blocking)) && rapid.IntRange(0, 2).Draw(rt, "keep_nonblocking_stop") != 0 {
 				o.K = 0 // a stop on a non-blocking request ends the history: keep it rare
 			}
 			if o.K > 60000 {
@@ -1355,9 +1355,16 @@ func TestC24(t *testing.T) {
 		"a backlog above 65535 ids (the outbound side replied more than 65535 ids at once) may make every further RequestTxIds fail: allowed, nothing is put on the wire",
 	)
 	maxOps := rec.Pick(10, 16)
+	c24Sweep(t, rec)
 	rec.Check(func(rt *rapid.T) {
 		fam := rapid.SampledFrom([]string{"A", "A", "A", "B", "B", "B", "C", "C"}).Draw(rt, "family")
-		x := &c24Ctx{rec: rec, rt: rt, cs: map[string]any{"family": fam}}
+		x := &c24Ctx{rec: rec, tb: rt, cs: map[string]any{"family": fam}}
+		if fam == "C" {
+			x.planA, x.planB = genPlan(rt, "a"), genPlan(rt, "b")
+		} else {
+			x.planA, x.planB = bigSafePlan(rt, "a"), bigSafePlan(rt, "b")
+			x.indef = rapid.Bool().Draw(rt, "reply_indef")
+		}
 		x.settle = time.Duration(rapid.SampledFrom([]int{0, 50, 500, 5000, 20000}).Draw(rt, "settle_us")) * time.Microsecond
 		x.cs["settle"] = x.settle.String()
 		var ops []c24Op
@@ -1398,6 +1405,88 @@ func TestC24(t *testing.T) {
 			rec.NonTrivial(desc, map[string]any{"history": desc, "ended": x.cs["ended"]})
 		}
 	})
+}
+
+// c24Sweep is the deterministic part: the special values of every count, of
+// the reply contents and every failure step are played once per run, each
+// followed by more traffic, independent of the seed.
+func c24Sweep(t *testing.T, rec *evi.Recorder) {
+	ids := func(b bool, n, k int, flav string) c24Op {
+		return c24Op{Kind: "ids", Blocking: b, N: n, K: k, Flav: flav}
+	}
+	// real server, observed by the real client (A) and on the wire (B): one
+	// connection, several sessions
+	var ops []c24Op
+	for _, n := range []int{0, 1, 2, 65534, 65535} {
+		ops = append(ops, ids(false, n, 3, ""), ids(true, n, 1, ""))
+	}
+	for _, n := range []int{65536, 65537, 70000, 1 << 31, math.MaxInt64, -1, -2, -65535, -65536, math.MinInt64} {
+		ops = append(ops, ids(n%2 == 0, n, 0, ""), ids(false, 1, 2, ""))
+	}
+	ops = append(ops,
+		ids(false, 3, 3, "zeros"), ids(true, 3, 3, "dups"), ids(false, 3, 3, "sizes"), ids(false, 5, 0, ""),
+		c24Op{Kind: "ids", N: 5, K: 0, NilEmpty: true}, ids(true, 5, 0, ""), c24Op{Kind: "txs", TxsN: 3}, c24Op{Kind: "txs", TxsN: 0},
+		ids(false, 2, 2, ""), ids(true, 1, -1, ""), // Done with 2 ids outstanding, new session
+		ids(false, 4, 4, ""), ids(true, 1, -1, ""), // Done right after a reply of 4
+		ids(true, 1, -1, ""), // Done as the first answer of a session
+		ids(false, 1, 1, ""), ids(false, 1, 1, ""))
+	for _, fam := range []string{"A", "B"} {
+		for _, indef := range []bool{false, true} {
+			x := &c24Ctx{rec: rec, tb: t, sweep: true, indef: indef, settle: 200 * time.Microsecond,
+				cs: map[string]any{"family": fam, "sweep": true, "history": fam + " sweep: " + opsDesc(ops)}}
+			if fam == "A" {
+				if indef {
+					continue
+				}
+				c24RealReal(x, ops)
+			} else {
+				c24RawClient(x, ops)
+			}
+			rec.Class("sweep_" + fam)
+			rec.NonTrivial(fmt.Sprintf("sweep %s indef=%v", fam, indef), map[string]any{"history": fam + " sweep (" + fmt.Sprint(len(ops)) + " ops)", "ended": x.cs["ended"]})
+		}
+	}
+	// endings that kill the connection: one fresh connection each, after two answered rounds
+	pre := []c24Op{ids(false, 2, 2, ""), ids(false, 2, 1, "")}
+	for _, last := range []c24Op{
+		ids(false, 1, -1, ""), ids(false, 1, -2, ""), ids(true, 1, -2, ""),
+		{Kind: "ids", N: 2, K: 2, SizeBogus: true},
+	} {
+		for _, fam := range []string{"A", "B"} {
+			if (fam == "A") == last.SizeBogus {
+				continue
+			}
+			h := append(append([]c24Op(nil), pre...), last)
+			x := &c24Ctx{rec: rec, tb: t, sweep: true, cs: map[string]any{"family": fam, "sweep": true, "history": fam + " sweep: " + opsDesc(h)}}
+			if fam == "A" {
+				c24RealReal(x, h)
+			} else {
+				c24RawClient(x, h)
+			}
+			rec.NonTrivial("sweep "+fam+" "+opsDesc(h), nil)
+		}
+	}
+	// raw server -> real client: every out-of-range wire value in either field,
+	// and every way the callback can refuse, after one answered round
+	wire := func(class, ack, req string, b bool, k int) c24Op {
+		return c24Op{Kind: "wire", Class: class, Ack: ack, Req: req, Blocking: b, K: k}
+	}
+	first := wire("valid", "full", "3", false, 2)
+	var lasts []c24Op
+	for _, v := range c24BogusVals {
+		lasts = append(lasts, wire("bogus-ack", v, "1", false, 0), wire("bogus-req", "0", v, true, 0))
+	}
+	lasts = append(lasts, wire("bogus-both", "65536", "65536", false, 0),
+		wire("valid", "full", "1", false, -1), wire("valid", "full", "1", true, -1),
+		wire("valid", "full", "1", false, -2), wire("valid", "full", "1", true, -2),
+		wire("valid", "full", "0", false, 0), wire("valid", "full", "65535", true, 3), wire("over-ack", "over", "1", false, 1))
+	for _, last := range lasts {
+		h := []c24Op{first, last}
+		x := &c24Ctx{rec: rec, tb: t, sweep: true, cs: map[string]any{"family": "C", "sweep": true, "history": "C sweep: " + opsDesc(h)}}
+		c24RawServer(x, h)
+		rec.NonTrivial("sweep C "+opsDesc(h), nil)
+	}
+	rec.Class("sweep_C")
 }
 
 var _ = errors.Is
